@@ -16,7 +16,7 @@ THOROUGH_EXHAUSTIVE = True
 RULE = ('cases = corpus + random names built from segments {file/dir names inside the root, ".", "..", "", sibling '
         'directory names, directories spelling the root or an ancestor in another letter case, decoy names, NUL/backslash segments} joined by {"/", "\\\\", "//"} with optional absolute '
         'prefixes, x roots {absolute, trailing separator(s), containing "..", relative to several working directories, '
-        '"/", "//", "", ".", the sibling, nonexistent} x GET/HEAD/Range/If-Modified-Since x forced-false '
+        '"/", "//", "", ".", the sibling, nonexistent, an existing regular file} x GET/HEAD/Range/If-Modified-Since x forced-false '
         'exists/isfile/access; real calls to ombott.static_file over a real temporary tree with open() and the os/os.path '
         'calls recorded in the module namespace.  thorough adds every name of <= 5 segments over 7 segments joined by "/" '
         '(x 3 roots) and every name of <= 3 segments over 3 separators (exhaustive).  non-trivial = the name contains a '
@@ -160,6 +160,10 @@ ROOTS = [
     ('{T}/base/root\\', '{T}'), ('{T}//base///root', '{T}'), ('{T}/base', '{T}'), ('{T}', '/'),
     ('../../../../../../../../../..', '{T}/base/work'), ('root', '/'),
     ('{T}/base/Root', '{T}'), ('{T}/BASE/root', '{T}'), ('Root', '{T}/base'),
+    # the root names an existing REGULAR FILE: nothing lies inside it, its siblings are outside
+    ('{T}/base/root/index.html', '{T}'), ('{T}/base/root/index.html/', '{T}'), ('root/index.html', '{T}/base'),
+    ('index.html', '{T}/base/root'), ('./index.html/', '{T}/base/root'), ('{T}/base/decoy.txt', '{T}'), ('{T}/top.txt', '/'),
+    ('{T}/base/root/sub/page.txt', '{T}'), ('../decoy.txt', '{T}/base/root'),
 ]
 SEGS_IN = ['index.html', 'sub', 'page.txt', 'deep', 'x.txt', 'a b.txt', 'emptydir', 'back\\slash.txt', 'root2', 'inner.txt']
 SEGS_OUT = ['root2', 'rootX', 'roo', 'root', 'base', 'Root', 'ROOT', 'BASE', 'Base', 'secret.txt', 'decoy.txt', 'top.txt', 'work', 'etc', 'passwd']
@@ -209,6 +213,12 @@ def corpus():
         mk(A, '{T}', 'index.html', deny=['isfile']),
         mk(A, '{T}', 'index.html', deny=['exists']),
         mk(A, '{T}', '../root2/secret.txt', method='HEAD', rng='bytes=0-1'),
+        # a root that is a regular file has no inside: its siblings must not be served (seeded change C16/8)
+        mk(A + '/index.html', '{T}', 'sub/page.txt'), mk(A + '/index.html', '{T}', 'a b.txt'), mk(A + '/index.html/', '{T}', 'sub/page.txt'),
+        mk('root/index.html', '{T}/base', 'arch.tar.gz'), mk('index.html', '{T}/base/root', 'sub/deep/x.txt'),
+        mk(A + '/index.html', '{T}', 'index.html'), mk(A + '/index.html', '{T}', ''), mk(A + '/index.html', '{T}', '../index.html'),
+        mk('{T}/base/decoy.txt', '{T}', 'root/index.html'), mk('{T}/base/decoy.txt', '{T}', 'root2/secret.txt'),
+        mk('{T}/top.txt', '{T}', 'base/decoy.txt'), mk(A + '/index.html', '{T}', 'sub/page.txt', root_kind='path'),
         # presentation arguments and the root's type do not move the gate
         mk(A, '{T}', 'index.html', kw=dict(download=True)), mk(A, '{T}', 'arch.tar.gz', kw=dict(download='../../x')),
         mk(A, '{T}', '../root2/secret.txt', kw=dict(download=True, mimetype='text/plain')),
@@ -283,11 +293,15 @@ def gen(rng, n):
             ims = rng.choice(['Thu, 01 Jan 2099 00:00:00 GMT', 'Thu, 01 Jan 1980 00:00:00 GMT'])
         elif q < 0.32:
             deny = [rng.choice(['exists', 'isfile', 'access'])]
+        name = gen_name(rng)
+        if root.rstrip('/').endswith(('.html', '.txt')) and rng.random() < 0.6:
+            name = rng.choice(['sub/page.txt', 'a b.txt', 'index.html', 'arch.tar.gz', 'sub/deep/x.txt', 'root/index.html',
+                               'root2/secret.txt', 'decoy.txt', 'base/decoy.txt', 'page.txt', 'deep/x.txt'])
         kw = {}
         if rng.random() < 0.15:
             kw = rng.choice([dict(download=True), dict(download='other.bin'), dict(mimetype=None), dict(mimetype='text/plain', charset='latin1'),
                              dict(mimetype='application/x', download=True)])
-        yield mk(root, cwd, gen_name(rng), method, rg, ims, deny, kw, 'path' if rng.random() < 0.15 else 'str')
+        yield mk(root, cwd, name, method, rg, ims, deny, kw, 'path' if rng.random() < 0.15 else 'str')
 
 
 def thorough():
@@ -443,8 +457,14 @@ def _served_from(content):
 def project(obs, case):
     if 'gate' not in obs:
         return obs
+    # the file-system questions that decide the answer are those about the target; a further probe of some other
+    # path (or the same question asked twice) is not a behavioural difference by itself
+    asked = []
+    for k, p, r in obs['asked']:
+        if p == obs['target_norm'] and [k, p] not in asked:
+            asked.append([k, p])
     return dict(gate=obs['gate'], root_norm=obs['root_norm'], target_norm=obs['target_norm'],
-                opened=obs['opened'], asked=[[k, p] for k, p, r in obs['asked']])
+                opened=obs['opened'], asked=asked)
 
 
 def _facts(case):
